@@ -354,3 +354,29 @@ Proof.
   - intros [cur [Hg [H|[H _]]]]; vm_compute in H; inversion H; subst cur;
       destruct Hg as [Hg|[n Hg]]; discriminate.
 Qed.
+
+(** non-vacuity of C20_history_good_version_survives: a history (an interrupted patch whose debris does not
+    load, then a completed one) inside the guard, with its outcome *)
+Definition hx_P : path := s2p "d.pickle".
+Definition hx_f2 : fs N := upd hx_P (Some [5%N; 1000%N]) hx_f.
+Definition hx_sch1 : schedule N := single SWrite (mkFault KBase (Some [7%N; 8%N; 9%N])).
+Definition hx_hist : list (cmd N) := [mkCmd env0 false hx_P hx_sch1; mkCmd env0 true hx_P no_fault].
+
+Example ex_history_guard_satisfiable :
+  Forall (fun c => debris_unloadable hx_parse FJson (c_env c) (c_sch c)) hx_hist /\
+  (exists cur, hx_Good cur /\ Inv hx_parse (fun _ => true) hx_A hx_f2 cur) /\
+  let r := run_hist hx_parse hx_dump (fun _ => true) (fun _ => true) hx_unpickle (fun (d : N) (_ : N) => d)
+                    hx_A hx_hist hx_f2 in
+  snd r = [Raised KBase SWrite; Raised KExc SLoadDoc] /\
+  fst r hx_A = Some [7%N; 8%N; 9%N] /\ fst r (bak hx_A) = Some [1%N].
+Proof.
+  split; [|split].
+  - repeat constructor; intros c H; cbn [c_env c_sch] in H; unfold debris in H; cbn in H;
+      destruct H as [H|[H|[[s [ft [Hs H]]]|[H|H]]]]; try discriminate;
+      try solve [inversion H; reflexivity];
+      try solve [discriminate Hs];
+      try solve [unfold hx_sch1, single in Hs; destruct (step_eqb s SWrite); inversion Hs; subst ft;
+                 cbn in H; inversion H; reflexivity].
+  - exists [1%N]. split; [left; reflexivity | left; reflexivity].
+  - vm_compute. repeat split.
+Qed.
